@@ -1,7 +1,85 @@
-(* family 13, part C: stub, to be filled *)
+(* family 13, part C (ops 1370-1399): the NAK PDU. *)
 From Coq Require Import ZArith List Bool.
-From SP Require Import Base.Result Base.Bytes Run.Marshal.
+From SP Require Import Base.Result Base.Bytes Run.Marshal Model.PduHeader Run.DispHdr
+  Model.FileDirective Model.Nak Spec.PduHeaderSpec Spec.PduCSpec.
 Import ListNotations.
 Open Scope Z_scope.
 
-Definition run_pdu_c (op : Z) (a : args) : args := [[1; 97]].
+(* segment requests on a case line: [s0; e0; s1; e1; ...] *)
+Fixpoint segs_of_flat (l : list Z) : list (Z * Z) :=
+  match l with
+  | s :: e :: r => (s, e) :: segs_of_flat r
+  | _ => []
+  end.
+Fixpoint flat_of_segs (l : list (Z * Z)) : list Z :=
+  match l with [] => [] | (s, e) :: r => s :: e :: flat_of_segs r end.
+
+(* a NAK PDU on a case line: ids, flags (as for family 12), [start; end], flat segment requests *)
+Definition nak_of_args (a : args) : res (NakPdu * PduConfig) :=
+  do c <- conf_of_args (lst 0 a) (lst 1 a);
+  nak_new c (int 2 0 a) (int 2 1 a) (segs_of_flat (lst 3 a)).
+
+Definition nak_fields (p : NakPdu) : args :=
+  hdr_fields (nk_hdr p) ++
+  [[fd_type (nk_fd p); fdir_header_len (nk_fd p); nak_packet_len p];
+   [nk_start p; nk_end p]; flat_of_segs (nk_segs p)].
+
+Definition pack_res (r : res bytes) : list Z :=
+  match r with Ok b => 0 :: b | Err e => [1; err_code e] end.
+
+(* history of setter calls: each remaining argument list is
+   0 :: flat segment requests (segment_requests setter) | [1; v] (file_flag setter) |
+   [2; v] (start_of_scope) | [3; v] (end_of_scope) *)
+Fixpoint nak_apply (p : NakPdu) (ops : list (list Z)) : res NakPdu :=
+  match ops with
+  | [] => Ok p
+  | (0 :: l) :: r => do p' <- nak_set_segs p (segs_of_flat l); nak_apply p' r
+  | (1 :: v :: _) :: r => do p' <- nak_set_file_flag p v; nak_apply p' r
+  | (2 :: v :: _) :: r => nak_apply (nak_set_start p v) r
+  | (3 :: v :: _) :: r => nak_apply (nak_set_end p v) r
+  | _ :: r => nak_apply p r
+  end.
+
+Definition params_of_args (a : args) : NakParams :=
+  {| np_start := int 2 0 a; np_end := int 2 1 a; np_segs := segs_of_flat (lst 3 a) |}.
+
+Definition run_pdu_c (op : Z) (a : args) : args :=
+  match op with
+  (* NakPdu(conf, start, end, segs): fields, then the caller's PduConfig afterwards *)
+  | 1370 => ret (fun r => nak_fields (fst r) ++ [conf_ids (snd r); conf_flags (snd r)]) (nak_of_args a)
+  (* .pack() *)
+  | 1371 => ret (fun b => [b]) (do r <- nak_of_args a; nak_pack (fst r))
+  (* NakPdu.unpack(data) *)
+  | 1372 => ret nak_fields (nak_unpack (lst 0 a))
+  (* NakPdu.unpack(data).pack() *)
+  | 1373 => ret (fun b => [b]) (do p <- nak_unpack (lst 0 a); nak_pack p)
+  (* p = NakPdu(...); p2 = unpack(p.pack() ++ suffix): [p2 == p], fields of p2, p2.pack() *)
+  | 1374 => ret (fun r => r)
+              (do r <- nak_of_args a;
+               do b <- nak_pack (fst r);
+               do p2 <- nak_unpack (b ++ lst 4 a);
+               Ok ([b2z (nak_eqb p2 (fst r))] :: nak_fields p2 ++ [pack_res (nak_pack p2)]))
+  (* get_max_seg_reqs_for_max_packet_size_and_pdu_cfg(max_packet_size, conf) *)
+  | 1375 => ret (fun r => [[r]])
+              (do c <- conf_of_args (lst 0 a) (lst 1 a); nak_max_seg_reqs (int 2 0 a) c)
+  (* constructor, then a history of setter calls: fields, pack, pack again, the caller's PduConfig *)
+  | 1376 => ret (fun r => r)
+              (do c <- conf_of_args (lst 0 a) (lst 1 a);
+               do r <- nak_new c (int 2 0 a) (int 2 1 a) (segs_of_flat (lst 3 a));
+               do p <- nak_apply (fst r) (skipn 4 a);
+               let cc := nak_caller_conf_after c p in
+               Ok (nak_fields p ++ [pack_res (nak_pack p); pack_res (nak_pack p); conf_ids cc; conf_flags cc]))
+  (* two PDUs: __eq__ *)
+  | 1377 => ret (fun r => [[r]])
+              (do r1 <- nak_of_args a;
+               do r2 <- nak_of_args (skipn 4 a);
+               Ok (b2z (nak_eqb (fst r1) (fst r2))))
+  (* NakPdu(...).get_max_seg_reqs_for_max_packet_size(n) *)
+  | 1378 => ret (fun r => [[r]])
+              (do r <- nak_of_args a; nak_max_seg_reqs (int 4 0 a) (nk_conf (fst r)))
+  (* NakPdu.unpack(data xor error pattern)  (C04: corrupted CRC-flagged PDUs) *)
+  | 1379 => ret nak_fields (nak_unpack (xor_bytes (lst 0 a) (lst 1 a)))
+  (* Spec side (independent oracle): layout of (conf fields, params) *)
+  | 1390 => [[0]; nak_layout (hdr_conf_raw (lst 0 a) (lst 1 a)) (params_of_args a)]
+  | _ => [[1; 97]]
+  end.
